@@ -646,7 +646,12 @@ class Engine:
             if c is not None and isinstance(f, Wrapped) and f.kind == "contextmanager":
                 c = None          # calling a context manager only creates it; its contract is applied by `with`
             if c is not None and c.callee and (self.depth > 0 or qn != self.unit) and qn not in self.inline:
-                return c.apply(self, f, list(args), kwargs)
+                if self._dynamic_args(list(args) + list(kwargs.values())):
+                    # a dynamically typed argument whose type the path has not established (the C18 units): the
+                    # contract is written for typed arguments -- execute the real body instead
+                    c = None
+                else:
+                    return c.apply(self, f, list(args), kwargs)
         if isinstance(f, Wrapped):
             return self.call_wrapped(f, args, kwargs)
         if isinstance(f, FuncVal):
@@ -665,6 +670,20 @@ class Engine:
         if f in lib.NATIVE:
             return lib.NATIVE[f](self, *args, **kwargs)
         raise Unsupported("call of %r" % (f,))
+
+    def _dynamic_args(self, vals):
+        from pyvc import lib
+        for v in vals:
+            if isinstance(v, SPy):
+                try:
+                    lib.refine(self, v)
+                except lib.UseBeforeValidation:
+                    return True
+                except Unsupported:
+                    return True
+                if isinstance(lib.refine(self, v), SPy):
+                    return True
+        return False
 
     def call_wrapped(self, w, args, kwargs):
         from pyvc import lib
@@ -1232,6 +1251,8 @@ class Engine:
         raise PathEnd("back-edge")
 
     def iter_elem(self, it, i):
+        if hasattr(it, "py_iter_elem"):
+            return it.py_iter_elem(self, i)
         if isinstance(it, _Reversed):
             s = it.seq
             from pyvc import lib as _lib
